@@ -35,7 +35,7 @@ SHAPES = {'rho': (3, 2, 4), 'alpha': (3, 2, 4), 'gammadown3': (3, 3, 3, 2, 4),
 
 
 def cases(tier, sd):
-    n = 48 if tier == "quick" else 400
+    n = 48 if tier == "quick" else 1500
     return [dict(seed=10000 * sd + i) for i in range(n)]
 
 
